@@ -132,8 +132,67 @@ fn gen_cycle(rng: &mut Rng) -> Vec<Rule> {
     rules
 }
 
+/// Several repetitions over one consuming rule: well-formed ones (`c+`, `(c ~ ",")*`) next to one
+/// whose body is made nullable by a count or `?`/`*` around the reference (`(c{0,3})*`, `(c?)+`); the
+/// validator has to judge each repetition body by itself, in whatever order they come.
+fn gen_multi_rep(rng: &mut Rng) -> Vec<Rule> {
+    let c = || id("c");
+    let good = |rng: &mut Rng| match rng.below(5) {
+        0 => seq(Expr::RepOnce(b(c())), s("q")),
+        1 => Expr::Rep(b(seq(c(), s("q")))),
+        2 => seq(Expr::Rep(b(c())), s("q")),
+        3 => Expr::RepMin(b(c()), 1 + rng.below(2) as u32),
+        _ => Expr::RepMinMax(b(seq(c(), Expr::Opt(b(s(" "))))), 1, 4),
+    };
+    let nullable_body = match rng.below(6) {
+        0 => Expr::RepMinMax(b(c()), 0, 1 + rng.below(3) as u32),
+        1 => Expr::RepMax(b(c()), 1 + rng.below(3) as u32),
+        2 => Expr::Opt(b(c())),
+        3 => Expr::Rep(b(c())),
+        4 => Expr::RepMin(b(c()), 0),
+        _ => Expr::Choice(b(c()), b(Expr::RepMinMax(b(c()), 0, 2))),
+    };
+    let bad = match rng.below(4) {
+        0 => Expr::Rep(b(nullable_body)),
+        1 => Expr::RepOnce(b(nullable_body)),
+        2 => seq(Expr::Rep(b(nullable_body)), s("q")),
+        _ => Expr::RepMin(b(nullable_body), 1 + rng.below(3) as u32),
+    };
+    let mut bodies: Vec<Expr> = vec![];
+    for _ in 0..1 + rng.below(3) {
+        bodies.push(good(rng));
+    }
+    let at = rng.below(bodies.len() + 1);
+    bodies.insert(at, bad);
+    let mut rules = vec![];
+    if rng.chance(1, 2) {
+        // all in one rule, as alternatives or in sequence
+        let mut it = bodies.into_iter();
+        let mut e = it.next().unwrap();
+        for nx in it {
+            e = if rng.chance(1, 2) { Expr::Choice(b(e), b(nx)) } else { seq(e, nx) };
+        }
+        rules.push(Rule { name: "r0".into(), ty: any_ty(rng), expr: e });
+    } else {
+        for (i, e) in bodies.into_iter().enumerate() {
+            rules.push(Rule { name: format!("r{i}"), ty: any_ty(rng), expr: e });
+        }
+    }
+    let ce = match rng.below(3) {
+        0 => s("a"),
+        1 => seq(s("a"), Expr::Opt(b(s("x")))),
+        _ => Expr::Choice(b(s("a")), b(s("x"))),
+    };
+    let at = rng.below(rules.len() + 1);
+    rules.insert(at, Rule { name: "c".into(), ty: any_ty(rng), expr: ce });
+    rules
+}
+
 /// Repetitions whose body may succeed without consuming.
 fn gen_stuck_rep(rng: &mut Rng) -> Vec<Rule> {
+    if rng.chance(1, 3) {
+        return gen_multi_rep(rng);
+    }
     let mut rules = vec![];
     let nullable_rule = rng.chance(1, 2);
     let body = if nullable_rule {
